@@ -26,4 +26,68 @@ CONFIG = {
         "assumptions": ["the ghost row sum of a sparse matrix equals the sum of its dense view (definition of the ghost)",
                         "np.round(x,14) is treated as the identity only inside lemma l1 (energy difference rounded to 14 decimals as in the source)"],
     },
+    "C16": {
+        "level": "proof", "proof": True, "rtc": True,
+        "explanation": "Contracts on the real get_increments (loop invariant, all lengths), get_between_radii (both include_zero "
+                       "modes, symbolic T incl. T=1) and TranslationParser.__init__ for ten text forms (linspace/np.linspace with 2/3 "
+                       "arguments, range/arange with 1-3 arguments, literal number/list/tuple of symbolic length): dispatch, ascending "
+                       "order, values = 10 x a permutation of the intended distances, rejection iff a negative distance, identifier "
+                       "data flow. Bounded: generated texts against an independent reading.",
+        "trusted_base": [NUMPY, "assumed: ast.literal_eval returns the literal's value; np.linspace/np.arange return their documented "
+                         "sequences; np.sort returns an ascending permutation; hashlib.md5 is a function of the buffer content; "
+                         "structured-string model of the accepted text forms (prefix '(' numbers ')')"],
+        "assumptions": ["text forms: the bracket content consists of number characters only (no nested brackets)"],
+    },
+    "C03": {
+        "level": "exploration", "proof": False, "rtc": True,
+        "explanation": "Bounded run-time contract on the real direction-grid getters against a Qhull-free arc-clipping oracle: every N in "
+                       "4..60 (quick) / 4..200 (thorough) for ico, cube3D, randomS, every pair and cell.",
+        "assumptions": ["nothing is claimed for N beyond the bound"],
+    },
+    "C04": {
+        "level": "exploration", "proof": False, "rtc": True,
+        "explanation": "Bounded run-time contract on the real HalfRotobjVoronoi matrices against a Qhull-free oracle on S^3 (exact dual-face "
+                       "clipping + hull-edge LP, Monte-Carlo cross-check): cube4D and randomQ, every N in 4..24 (quick) / 4..80 (thorough), "
+                       "every signed pair incl. index 0 and antipodal-only pairs; fold semantics and symmetry checked on the real arrays.",
+        "assumptions": ["nothing is claimed for N beyond the bound"],
+    },
+    "C06": {
+        "level": "exploration", "proof": False, "rtc": True,
+        "explanation": "Bounded run-time contract on the real Cartesian position-grid getters against an own half-space clipping oracle "
+                       "(no Qhull): every N in 4..42 (quick) / 4..100 (thorough), three algorithms, 1-3 radii.",
+        "assumptions": ["nothing is claimed for N beyond the bound"],
+    },
+    "C10": {
+        "level": "exploration", "proof": False, "rtc": True,
+        "explanation": "Bounded run-time contract: real Pseudotrajectory / readers / PtWriter on arbitrary (M,7) arrays and real grids for 5-7 "
+                       "molecule pairs against an independent numpy placement (hand-coded quaternion matrix).",
+        "assumptions": ["MDAnalysis masses, Merge and MemoryReader behave as documented"],
+    },
+    "C11": {
+        "level": "exploration", "proof": False, "rtc": True,
+        "explanation": "Bounded run-time contract: real AssignmentTool on continuous random placements and pseudotrajectory round trips "
+                       "against a brute-force oracle, with boundary margins excluded.",
+        "assumptions": ["placements within the stated margins of a cell boundary are excluded"],
+    },
+    "C14": {
+        "level": "exploration", "proof": False, "rtc": True,
+        "explanation": "Bounded end-to-end run of the real writer -> reader -> SQRA -> DecompositionTool pipeline on small grids against "
+                       "the closed formula and a dense eigen-solver.",
+        "assumptions": ["ARPACK and LAPACK results are compared numerically, nothing about them is proved"],
+    },
+    "C15": {
+        "level": "exploration", "proof": False, "rtc": True,
+        "explanation": "Bounded run-time contract on the real rotation-cell volumes against a seeded Monte-Carlo nearest-rotation count: "
+                       "cube4D and randomQ, N 1..40 (quick) / 1..80 (thorough); exact equal-share clause for N < 4.",
+        "assumptions": ["the Monte-Carlo estimate (4e5 / 2e6 samples) has a statistical error far below the 30% band; cells within 3 sigma of "
+                        "the band edge are listed as uncertain, not failed"],
+    },
+    "C20": {
+        "level": "exploration", "proof": False, "rtc": True,
+        "explanation": "Bounded run-time contract: real GridWriter/GridReader round trips compared bitwise (values, pattern, entry order) and "
+                       "generated GROMACS xvg / csv energy tables over the stated header shapes, cell by cell.",
+        "assumptions": ["pandas.read_csv semantics are exercised, not proved"],
+    },
 }
+
+NOT_APPLICABLE = {}
